@@ -20,6 +20,16 @@ pub struct RCell {
     pub as_client: bool,
     /// packet type nibble 0..=15
     pub ty: u8,
+    /// flag nibble of the first byte; 0xff = the one the reference encoder writes (canonical)
+    #[serde(default = "canonical_flags")]
+    pub fl: u8,
+    /// content variant: CONNECT 1 = resuming (clean = false, Session Expiry); CONNACK 1 = refusing return / reason code
+    #[serde(default)]
+    pub var: u8,
+}
+
+fn canonical_flags() -> u8 {
+    0xff
 }
 
 /// What MQTT lets the remote side of `role` send (= what `role` may receive), independent table.
@@ -61,7 +71,17 @@ pub fn all_cells() -> Vec<RCell> {
                 }
                 for (stage, as_client) in stages {
                     for ty in 0u8..=15 {
-                        out.push(RCell { role, ctor, hs, stage, as_client, ty });
+                        out.push(RCell { role, ctor, hs, stage, as_client, ty, fl: 0xff, var: 0 });
+                        if ty == 1 || ty == 2 {
+                            out.push(RCell { role, ctor, hs, stage, as_client, ty, fl: 0xff, var: 1 });
+                        }
+                        // a kind the role can never receive stays forbidden whatever the flag nibble of its first byte is
+                        let exists = (1..=14).contains(&ty) || (ty == 15 && hs == V::V5);
+                        if !(exists && role_may_receive(role, ty, hs)) {
+                            for fl in 0u8..16 {
+                                out.push(RCell { role, ctor, hs, stage, as_client, ty, fl, var: 0 });
+                            }
+                        }
                     }
                 }
             }
@@ -109,7 +129,13 @@ fn prepare_exchanges(c: &mut dyn Conn, v: V, can_subscribe: bool) -> Result<Prep
 }
 
 fn packet_of_type(ty: u8, v: V, p: Option<&Prepared>) -> Option<AP> {
+    packet_of_type_var(ty, v, p, 0)
+}
+
+fn packet_of_type_var(ty: u8, v: V, p: Option<&Prepared>, var: u8) -> Option<AP> {
     Some(match ty {
+        1 if var == 1 => connect_ap(v, &ConnectArgs { clean: false, keep_alive: 10, p: HsProps { sei: Some(300), rm: Some(3), ..HsProps::default() } }),
+        2 if var == 1 => connack_ap(v, &ConnackArgs { sp: false, fail: 3, p: HsProps::default() }),
         1 => connect_ap(v, &ConnectArgs { clean: true, keep_alive: 0, p: HsProps::default() }),
         2 => connack_ap(v, &ConnackArgs { sp: false, fail: 0, p: HsProps::default() }),
         3 => publish_ap(v, 1, false, false, 1, AliasMode::None, Some(9), vec![7]),
@@ -132,7 +158,7 @@ fn packet_of_type(ty: u8, v: V, p: Option<&Prepared>) -> Option<AP> {
 const SESSION_FIELDS: [&str; 9] = ["pid_free", "pid_suback", "pid_unsuback", "pid_puback", "pid_pubrec", "pid_pubcomp", "pid_pubrel", "store", "qos2_publish_handled"];
 
 fn rsig(c: &RCell) -> String {
-    format!("{:?}/{:?}/{:?}{}/type{}", c.role, c.ctor, c.stage, if c.stage == Stage::Fresh { "" } else if c.as_client { "(as client)" } else { "(as server)" }, c.ty)
+    format!("{:?}/{:?}/{:?}{}/type{}{}", c.role, c.ctor, c.stage, if c.stage == Stage::Fresh { "" } else if c.as_client { "(as client)" } else { "(as server)" }, c.ty, if c.fl == 0xff { if c.var == 0 { String::new() } else { format!("/variant{}", c.var) } } else { format!("/flags{:x}", c.fl) })
 }
 
 pub fn test_cell(cell: &RCell, st: &mut Stats) -> R {
@@ -149,11 +175,15 @@ pub fn test_cell(cell: &RCell, st: &mut Stats) -> R {
     } else {
         None
     };
-    let bytes: Vec<u8> = match packet_of_type(cell.ty, v, prepared.as_ref()) {
+    let mut bytes: Vec<u8> = match packet_of_type_var(cell.ty, v, prepared.as_ref(), cell.var) {
         Some(ap) => refcodec::encode(&ap, 2),
         // non-existent types: 0 always, 15 under v3.1.1 - a syntactically complete frame
         None => vec![cell.ty << 4, 0x00],
     };
+    let canonical = cell.fl == 0xff || bytes[0] & 0x0f == cell.fl;
+    if cell.fl != 0xff {
+        bytes[0] = (bytes[0] & 0xf0) | (cell.fl & 0x0f);
+    }
     let before = c.state();
     let calls = match recv_all(c.as_mut(), &bytes) {
         Ok(c) => c,
@@ -172,7 +202,8 @@ pub fn test_cell(cell: &RCell, st: &mut Stats) -> R {
         }
         // a kind the role can never receive is a protocol error; a type that does not exist in the version
         // (0, and 15 under v3.1.1) may be reported as protocol error or as malformed packet
-        let want = if exists { "ProtocolError" } else { "ProtocolError|MalformedPacket" };
+        // with a non-canonical flag nibble the frame is malformed as well: either report is a rejection
+        let want = if exists && canonical { "ProtocolError" } else { "ProtocolError|MalformedPacket" };
         if !errors.iter().any(|e| want.split('|').any(|w| w == *e)) {
             return Err(fail("C17.forbidden_no_error", &sig, format!("expected NotifyError({want}) for type {} on a {:?} connection under {}, got {}", cell.ty, cell.role, v.name(), brief_list(&events))));
         }
@@ -371,7 +402,7 @@ pub fn run(ctx: &Ctx) -> Report {
     let r = first_packet_rules(&mut st);
     let v = r.err().map(|f| Violation { check: "c17.first".into(), fail: f, case: serde_json::Value::Null, seed: ctx.seed });
     rep.absorb("first_packet_rules", st, v, true);
-    let n = ctx.tier.pick(100_000, 1_500_000);
+    let n = ctx.tier.pick(200_000, 1_500_000);
     let (st, v) = search(ctx, "c17.script", n, script_strategy, test_script);
     rep.absorb("autodetect_differential", st, v, false);
     rep.assumptions.push("legitimate kinds are only asserted to be delivered in the prepared connected state".into());
